@@ -158,4 +158,15 @@ def refOnly (line : String) : String :=
       s!"v0={b01 r0.valid} c0={codesStr r0.codes} amb0={b01 r0.ambiguous} v1={b01 r1.valid} c1={codesStr r1.codes} s={b01 (simpleRef vg)} r={b01 (isRingRef vg)}"
   | _ => "parse-error"
 
+/-- stream `node-topo`: `N ox oy a0x a0y a1x a1y b0x b0y b1x b1y` → the Lean copy of PolygonNodeTopology -/
+def nodeTopo (line : String) : String :=
+  match (Driver.tokens line) with
+  | "N" :: rest =>
+    match rest.mapM String.toInt? with
+    | some [ox, oy, a0x, a0y, a1x, a1y, b0x, b0y, b1x, b1y] =>
+      let o : Pt := ⟨ox, oy⟩; let a0 : Pt := ⟨a0x, a0y⟩; let a1 : Pt := ⟨a1x, a1y⟩; let b0 : Pt := ⟨b0x, b0y⟩; let b1 : Pt := ⟨b1x, b1y⟩
+      s!"{compareAngle o a0 a1} {compareAngle o b0 a0} {b01 (isCrossing o a0 a1 b0 b1)} {b01 (isInteriorSegment o a0 a1 b0)} {b01 (isInteriorSegment o a0 a1 b1)}"
+    | _ => "parse-error"
+  | _ => "bad-line"
+
 end Driver.C05
